@@ -29,16 +29,17 @@ import (
 const modulePath = "github.com/olric-data/olric"
 
 type HarnessCfg struct {
-	Pkg      string                      `json:"pkg"`  // relative to the repo root, e.g. internal/kvstore
-	Func     string                      `json:"func"` // harness function name
-	Bounds   map[string]map[string]int64 `json:"bounds"`
-	MaxPaths map[string]int              `json:"max_paths"`
-	Replay   string                      `json:"replay"` // direct | none
-	Tiers    []string                    `json:"tiers"`  // tiers in which the harness runs (default both)
-	Unwind   int                         `json:"unwind"`
-	Retries  int                         `json:"replay_retries"`
-	Validate *int                        `json:"validate"`
-	About    string                      `json:"about"`
+	Pkg        string                      `json:"pkg"`  // relative to the repo root, e.g. internal/kvstore
+	Func       string                      `json:"func"` // harness function name
+	Bounds     map[string]map[string]int64 `json:"bounds"`
+	MaxPaths   map[string]int              `json:"max_paths"`
+	Replay     string                      `json:"replay"` // direct | none
+	Tiers      []string                    `json:"tiers"`  // tiers in which the harness runs (default both)
+	Unwind     int                         `json:"unwind"`
+	Retries    int                         `json:"replay_retries"`
+	Validate   *int                        `json:"validate"`
+	AllowBlock bool                        `json:"allow_block"`
+	About      string                      `json:"about"`
 }
 
 type PropCfg struct {
@@ -542,7 +543,7 @@ func cmdCheck(args []string) int {
 			inconclusive = append(inconclusive, fmt.Sprintf("%s: %d solver answers were unknown", name, res.Unknown))
 		}
 		for k, n := range res.EndKinds {
-			if k == "steps" || k == "block" {
+			if k == "steps" || (k == "block" && !h.AllowBlock) {
 				inconclusive = append(inconclusive, fmt.Sprintf("%s: %d paths ended with %s", name, n, k))
 			}
 		}
